@@ -226,7 +226,35 @@ def run(rep):
             okl = okleft and okright and oksym
             det = "left=%s right=%s symbol=%s" % (show(l)[:30], show(r)[:40], show(sy)[:20])
         rep.check(okl, "ASSOC", "ASSOC/led-operand-order", pl.sp, "parse_led builds (left operand, consumed operator, parse_expr(..) result) in that order, with no swap", det)
-    rep.floor("ASSOC", 7)
+    # `not` applies to the single operand that follows it: every successful result of the `not` arm is Negate(<that operand>)
+    pn = F.fn("parser::parse_nud")
+    if pn is not None:
+        arms = []
+        for n in walk(pn.body):
+            if n.get("k") == "Match":
+                for a in n["arms"]:
+                    if any(variant_of(p_) == ("MiscSym", "Not") for p_ in or_pats(a["pat"])):
+                        arms.append(a)
+        okn = False
+        det = "%d arms for MiscSym::Not" % len(arms)
+        if len(arms) == 1:
+            body = arms[0]["body"]
+            oks = [x for x in walk(body) if x.get("k") == "Adt" and x["adt"].endswith("result::Result") and x["variant"] == "Ok"]
+            pcalls = [x for x in walk(body) if call_is(x, "parser::parse_expr")]
+            good = 0
+            for o in oks:
+                pay = peel(o["fields"][0]["e"])
+                if pay.get("k") == "Adt" and pay["adt"] == "parser::Expression" and pay["variant"] == "Negate":
+                    inner = peel(pay["fields"][0]["e"])
+                    inner = peel(inner["args"][0]) if inner.get("k") == "Call" and (inner.get("fn") or "").endswith("Box::<T>::new") else {}
+                    src = q.resolve(body, inner) if inner.get("k") == "Var" else inner
+                    src = src["arg"] if isinstance(src, dict) and src.get("k") == "Try" else src
+                    if len(pcalls) == 1 and peel(src) is pcalls[0]:
+                        good += 1
+            okn = bool(oks) and good == len(oks) and len(pcalls) == 1
+            det = "%d Ok results, %d of them Negate(parse_expr(..))" % (len(oks), good)
+        rep.check(okn, "ASSOC", "ASSOC/not-builds-negate", pn.sp, "every successful result of the `not` arm is Negate(the operand parsed after it): no folding, no unwrapping", det)
+    rep.floor("ASSOC", 8)
 
     # ---------------------------------------------------------------- PAREN
     rep.describe("PAREN", "the `(` arm collects tokens to the matching `)` with a depth counter and returns parse(&inner) unchanged; parser::parse rejects trailing tokens")
